@@ -33,6 +33,7 @@ def run(ctx, rep):
         'convert and validity of formatted images are not.')
     rep.rule('C20.1', 'CLI: buffer lengths passed to read_at/write_at are block multiples; buffers are Qcow2IoBuf')
     rep.rule('C20.5', 'qcow2 -> raw: every chunk that was read is written, or the output length is set explicitly')
+    rep.rule('C20.6', 'raw -> qcow2: the routine that pads the last chunk zeroes its buffer itself')
     rep.rule('C20.2', 'leak detection sets the returned verdict; check() maps a true verdict to Err')
     rep.rule('C20.3', 'scan bound uses the geometry fields of HostCluster::rt_index')
     rep.rule('C20.4', 'used-cluster set: every mapping kind that can hold a host cluster reaches add_used_cluster_to_set')
@@ -107,6 +108,25 @@ def cli_rule(fb, rep):
                           '%s can return Ok for a chunk it read without writing it, and nothing sets the length of the output '
                           'file: the raw output is shorter than the image when the skipped chunk is the last one' % short(b.path))
     rep.floor('qcow2 -> raw copy routines', nb, 1)
+    # C20.6: raw -> qcow2: the routine that rounds the length up writes padding; the buffer must be
+    # zeroed in that routine (a buffer handed in by the caller carries the previous chunk)
+    nz = 0
+    for b in fb.body_list:
+        wr = [bi for bi, t in b.calls() if (t.get('fn') or '').endswith('::write_at') and 'Qcow2Dev' in (t.get('fn') or '')]
+        rd = [bi for bi, t in b.calls() if (t.get('fn') or '').endswith('io::Read::read') or (t.get('fn') or '').endswith('io::Read::read_exact')]
+        if not wr or not rd:
+            continue
+        nz += 1
+        zero = [bi for bi, t in b.calls() if (t.get('fn') or '').endswith('::zero_buf') or (t.get('fn') or '').endswith('slice::<impl [T]>::fill')
+                or (t.get('fn') or '').endswith('ptr::write_bytes')]
+        ok = all(any(b.dominates(z, w) and all(z not in b.reachable(r) or b.dominates(z, r) for r in rd) for z in zero) for w in wr)
+        rep.ob('C20.6', 'padding written by %s is zero' % short(b.path), ok,
+               'the buffer is zeroed in this routine before it is filled and written' if ok else 'no zero fill of the buffer in this routine before the write')
+        if not ok:
+            rep.violation('C20.6', 'C20.6:%s:padding' % short(b.path), b.where(wr[0]),
+                          '%s writes a length rounded up to the block size from a buffer it did not zero itself: the padding after a '
+                          'short last chunk is whatever the buffer held before (the previous chunk), not zeros' % short(b.path))
+    rep.floor('raw -> qcow2 copy routines', nz, 1)
 
 
 def body_of(f, suffix):
@@ -217,6 +237,22 @@ def bound_rule(f, P, rep):
     want = c15.canon(set(want) & GEOMETRY)
     got = c15.canon(got)
     ok = got == want
+    # the bound has to come from the refcount structures alone: what is *referenced* must not limit what is scanned
+    used = False
+    for bi in sorted(leak.reachable()):
+        for si, st in enumerate(leak.blocks[bi]['st']):
+            if st['k'] == 'assign' and st['rv']['k'] == 'agg' and st['rv'].get('p') == 'std::ops::Range' and len(st['rv']['ops']) == 2:
+                d = dp.of_operand(st['rv']['ops'][1], (bi, si))
+                if any(x[0] == 'fn' and (x[1].endswith('sorted_ranges') or x[1].endswith('add_data_clusters') or x[1].endswith('add_table_clusters')
+                                         or 'RangeInclusive' in x[1] and x[1].endswith('::end')) for x in d) and \
+                        any(x[0] == 'field' and x[1] in GEOMETRY for x in d):
+                    used = True
+    rep.ob('C20.3', 'scan bound is independent of the set of referenced clusters', not used,
+           'derived from the refcount table and the geometry only' if not used else 'derived from the used-cluster set')
+    if used:
+        rep.violation('C20.3', 'C20.3:check_cluster_leak:bound-from-used', where,
+                      'the upper bound of the leak scan depends on the set of referenced clusters: an allocated cluster beyond the '
+                      'last referenced one is never examined, so exactly the leaks at the end of the file are missed')
     rep.ob('C20.3', 'scan bound of check_cluster_leak', ok, 'uses %s; rt_index uses %s' % (sorted(got), sorted(want)))
     if not ok:
         rep.violation('C20.3', 'C20.3:check_cluster_leak:bound', where,
